@@ -1,7 +1,7 @@
 SPECIFICATION Spec
 CONSTANTS
   Cap = 2
-  MaxId = 6
-  Defects = {}
+  MaxId = 4
+  Defects = {"DoubleUnhandled"}
 VIEW View
 INVARIANTS Accounting CountMatches Bounded
